@@ -14,7 +14,7 @@ for pid in sys.argv[1:]:
     new = {}
     for k, v in old.items():
         o = obs.get(k, 0)
-        if k.startswith('control_reached') or k in ('race_detector_runs', 'pairs_with_baseline_statement', 'grid_walks', 'grid_requests') or k.startswith('g_'):
+        if k.startswith('control_reached') or k in ('race_detector_runs', 'pairs_with_baseline_statement', 'grid_walks', 'grid_requests', 'max_batch_size') or k.startswith('g_'):
             new[k] = min(v, o) if o else v
         else:
             new[k] = max(1, int(o * 0.6))
